@@ -316,6 +316,28 @@ def param_kinds(ctx):
                 if a is not None and b is not None and not np.array_equal(np.broadcast_to(a, np.shape(b)), b):
                     ctx.fail(key + ':' + fname, f'{fname} form: a {name} keyword parameter does not enter like the '
                              'equivalent pre-interpolated field', dict(info, got=np.asarray(a).tolist(), expected=np.asarray(b).tolist()))
+        # user parameters NAMED like the defaults (x, h, n: a previous iterate, a thickness field, ...) override the defaults
+        # of the basis in all three form types; an unshadowed default stays visible
+        ub.defaults = {'x': DiscreteField(np.full((nt, nq), 7.0)), 'h': DiscreteField(np.full((nt, nq), 5.0)),
+                       'n': DiscreteField(np.full((nt, nq), 3.0))}
+        for nm in ('x', 'h', 'n'):
+            for fname, call in (('bilinear', lambda key, kw: BilinearForm(S.py_form2(k2, key))._assemble(ub, vb, **kw)[1]),
+                                ('linear', lambda key, kw: LinearForm(S.py_form1(k1, key))._assemble(ub, **kw)[1]),
+                                ('functional', lambda key, kw: Functional(S.py_form0(k0, key)).elemental(ub, **kw))):
+                fld = DiscreteField(arr)
+                got = _run(ctx, f'param-named:{nm}:{fname}', f'{fname} form with a user parameter named {nm}', info, lambda: call(nm, {nm: fld}))
+                exp = call('c', {'c': fld})
+                dflt = _run(ctx, f'param-named:{nm}:{fname}', f'{fname} form reading the default parameter {nm}', info, lambda: call(nm, {}))
+                dexp = call('c', {'c': ub.defaults[nm]})
+                ctx.count(('param-named', nm, fname, info), nontrivial=True)
+                if got is not None and not np.array_equal(got, exp):
+                    ctx.fail(f'param-named:{nm}:{fname}', f'{fname} form: a user keyword parameter named {nm!r} does not override the default '
+                             f'parameter of the basis (it must enter like any other parameter)',
+                             dict(info, name=nm, got=np.asarray(got).tolist(), expected=np.asarray(exp).tolist()))
+                if dflt is not None and not np.array_equal(dflt, dexp):
+                    ctx.fail(f'param-default:{nm}:{fname}', f'{fname} form: the default parameter {nm!r} of the basis is not passed to the form',
+                             dict(info, name=nm))
+        ub.defaults = {}
         # Form.partial binds extra arguments of the integrand; decorator forms (Form()(f)) keep dtype / nthreads
         def f4(u, v, w, alpha=1, beta=0):
             return alpha * S.py_form2(k2)(u, v, w) + beta * u * v
